@@ -126,4 +126,44 @@ theorem shape_conversion (run : Nat) (p : Path) (o : OldProp) :
   rw [applyRule_str run p o _ _ _ "checksum" ".checksum" (·.checksum) rfl]
   simp only [Option.map_some, freshProp, List.nil_append, List.append_assoc, List.cons_append, List.map_map]
 
+/-! ### `create_property`, the main call, `has_valid_file_id`, `file_upgrade` -/
+
+theorem textWrite_same (a : CreateArgs) (p : String) (v : Option String) (h : a.text p = some v) :
+    textWrite a p (.truthy p) = some (nonEmpty v) := by
+  unfold textWrite
+  simp only [h, Option.map_some]
+  cases v with
+  | none => rfl
+  | some t =>
+    by_cases ht : t = ""
+    · subst ht; rfl
+    · simp [nonEmpty, Option.filter, ht]
+
+/-- `create_property` as written makes the model's new property: id and timestamps of this run, dtype and values as
+handed in, definition and unit exactly as handed in unless `None` or empty -/
+theorem shape_create (run : Nat) (a : CreateArgs) :
+    createG Gen.createDataset Gen.createAttrs run a =
+      some { freshProp run a.dtype a.data with definition := nonEmpty a.definition, unit := nonEmpty a.unit } := by
+  have hd : textWrite a "definition" (.truthy "definition") = some (nonEmpty a.definition) :=
+    textWrite_same a "definition" a.definition rfl
+  have hu : textWrite a "unit" (.truthy "unit") = some (nonEmpty a.unit) := textWrite_same a "unit" a.unit rfl
+  unfold createG Gen.createDataset Gen.createAttrs
+  simp only [writeAttrs, writeAttr, hd, hu, Option.map_some]
+  rfl
+
+/-- the main call as written hands over what was read from the old dataset: the dtype and the column of the values,
+the `definition` and the `unit` attribute, each unmodified -/
+theorem shape_main_args (o : OldProp) :
+    mainArgsG Gen.mainArgs o = some ⟨o.dtype, o.rows.map (·.value), o.definition, o.unit⟩ := rfl
+
+theorem shape_default_args (dt : String) (vals : List Val) :
+    defaultArgsG Gen.createParams dt vals = some ⟨dt, vals, none, none⟩ := rfl
+
+theorem shape_id_valid (f : File) : Gen.idValid.eval (idEnv f.id) = some (hasValidId f) := by
+  unfold Gen.idValid hasValidId
+  cases f.id <;> rfl
+
+theorem shape_entry (lib : List Nat) (run : Nat) (f : File) :
+    entryG Gen.entryOps lib run f = some (upgrade lib run f) := rfl
+
 end Nix.Upgrade.Lemmas
